@@ -4,6 +4,7 @@ CONSTANTS
   NRand = 2
   BitStep = 131
   NRandSeeds = 1
+  ByteLens = {1, 13}
   Keys <- MCKeys
   Seeds <- MCSeeds
   Obs <- ObsEmit
